@@ -276,6 +276,12 @@ int assemble_code(
   AsmContext asm_context;
   int i;
 
+  if (cpu_name == NULL)
+  {
+    printf("Error: asm needs a CPU, start naken_util with one (-msp430, ...)\n");
+    return -1;
+  }
+
   asm_context.init();
   asm_context.set_cpu(cpu_name);
   asm_context.set_org(org);
